@@ -2179,16 +2179,31 @@ func (a *Association) handleInitAck(pkt *packet, initChunkAck *chunkInitAck) err
 		return nil
 	}
 
-	a.myMaxNumInboundStreams = min16(initChunkAck.numInboundStreams, a.myMaxNumInboundStreams)
-	a.myMaxNumOutboundStreams = min16(initChunkAck.numOutboundStreams, a.myMaxNumOutboundStreams)
-	a.peerVerificationTag = initChunkAck.initiateTag
-	a.payloadQueue.init(initChunkAck.initialTSN - 1)
+	// Validate before anything is recorded: a rejected INIT ACK must leave the
+	// association exactly as it was.
 	if a.sourcePort != pkt.destinationPort ||
 		a.destinationPort != pkt.sourcePort {
 		a.log.Warnf("[%s] handleInitAck: port mismatch", a.name)
 
 		return nil
 	}
+
+	var cookieParam *paramStateCookie
+	for _, param := range initChunkAck.params {
+		if val, ok := param.(*paramStateCookie); ok {
+			cookieParam = val
+		}
+	}
+	if cookieParam == nil {
+		// T1-init keeps running: the INIT is retransmitted and the handshake
+		// either gets a usable INIT ACK or fails after the last retransmission.
+		return ErrInitAckNoCookie
+	}
+
+	a.myMaxNumInboundStreams = min16(initChunkAck.numInboundStreams, a.myMaxNumInboundStreams)
+	a.myMaxNumOutboundStreams = min16(initChunkAck.numOutboundStreams, a.myMaxNumOutboundStreams)
+	a.peerVerificationTag = initChunkAck.initiateTag
+	a.payloadQueue.init(initChunkAck.initialTSN - 1)
 
 	a.setRWND(initChunkAck.advertisedReceiverWindowCredit)
 	a.log.Debugf("[%s] initial rwnd=%d", a.name, a.RWND())
@@ -2206,11 +2221,8 @@ func (a *Association) handleInitAck(pkt *packet, initChunkAck *chunkInitAck) err
 	a.peerIForwardTSN = false
 	a.sendZeroChecksum = false
 
-	var cookieParam *paramStateCookie
 	for _, param := range initChunkAck.params {
 		switch val := param.(type) {
-		case *paramStateCookie:
-			cookieParam = val
 		case *paramSupportedExtensions:
 			extensions := supportedExtensionsFromChunkTypes(val.ChunkTypes)
 			a.peerForwardTSN = a.peerForwardTSN || extensions.forwardTSN
@@ -2236,12 +2248,6 @@ func (a *Association) handleInitAck(pkt *packet, initChunkAck *chunkInitAck) err
 	} else {
 		a.log.Warnf("[%s] not using ForwardTSN (on initAck)", a.name)
 	}
-	if cookieParam == nil {
-		// T1-init keeps running: the INIT is retransmitted and the handshake
-		// either gets a usable INIT ACK or fails after the last retransmission.
-		return ErrInitAckNoCookie
-	}
-
 	a.t1Init.stop()
 	a.storedInit = nil
 
